@@ -28,25 +28,25 @@ CHECKS = {
  "C14": dict(tech="runtime monitor: differential oracle GetI8/16/32/64 vs Get on full-range integer values; first typed reads of a fresh instance made by 8 goroutines at once",
              text="Typed getters are compared with Get (found flag and number) for every query of Q(K) on tries with min/max/-1/0/random values of each width, all option sets, de-duplicated and loaded tries.",
              ref="3 C14"),
- "C05": dict(tech="runtime monitors: byte-equality of repeated builds/marshals; battery-digest equality fresh vs loaded; sequential state-machine oracle over all Unmarshal/proto.Unmarshal/Reset histories of length <=3",
+ "C05": dict(tech="runtime monitors: byte-equality of repeated builds/marshals; battery-digest equality fresh vs loaded; sequential state-machine oracle over all Unmarshal/proto.Unmarshal/Reset histories of length <=3; proto.Size == len(Marshal) on every loaded state; by-value copies of loaded instances compared after their source loaded other data",
              text="Marshal output of five independent builds, of Marshal twice, of proto.Marshal and the advertised size are compared byte for byte; a loaded instance must give the same battery digest (lookups incl. false positives, scans or their refusal, Stat, String, re-Marshal) as the fresh one; every history of length <=3 over 17 operations on 8 pooled streams (incl. legacy, truncated, incompatible) is executed on one instance and compared with a brand-new instance given only the final state.",
              ref="3 C05"),
- "C06": dict(tech="runtime monitor: reference-map oracle over streams synthesised by validated legacy writer models (12 layouts) + the 97 archived fixtures; differential vs the source trie",
+ "C06": dict(tech="runtime monitor: reference-map oracle over streams synthesised by validated legacy writer models (12 layouts) + the 97 archived fixtures; differential vs the source trie; streams of 118k keys / more than 1 MiB of key text / label bitmaps searched to end on a word boundary",
              text="Streams in every historical layout are produced for arbitrary generated key sets by writer models (re-validated against the 97 fixtures on each run), loaded, and checked against the reference model on every indexed key (Get, RangeGet, Search, KeyCnt), with the exact-map battery and scans for allpref streams, and query-by-query against the fresh trie a 0.5.10 stream was derived from.",
              ref="3 C06 and 2.5", note=" The legacy writers are models of historical code that is not in the repository; they reproduce all 97 archived fixtures."),
  "C07": dict(level="fault_enumeration", tech="fault enumeration at run time: every cut point of valid streams of every layout + a version-string list (incl. numerically aliasing versions), observed through Unmarshal's result and an empty-behaviour battery; guard-paged read-only input buffers and short views of longer buffers; a load that never returns is a violation",
              text="For each valid stream every strict prefix (every byte offset for streams <=64 KiB) is handed to Unmarshal on an instance that holds other data: it must return an error without panicking and afterwards answer as an empty trie; every incompatible/malformed version string must be rejected with ErrIncompatible. Exhaustive over the cut points of the streams generated in the run.",
              ref="3 C07"),
- "C08": dict(tech="runtime monitor: error-identity oracle on injected order violations + C01 oracle on every accepted build of a run-length sweep across the step-width boundary; accepted slices edited in place and resubmitted",
+ "C08": dict(tech="runtime monitor: error-identity oracle on injected order violations + C01 oracle on every accepted build of a run-length sweep across the step-width boundary; accepted slices edited in place and resubmitted; every accepted valid list verified key by key with every value kind",
              text="Order violations injected at every position of short lists (seeded positions of long ones) must be rejected with ErrKeyOutOfOrder and a nil trie; valid lists within limits must be accepted; for single-branch runs of every swept length 0..70000 half-bytes (thorough 262145) at four placements and 16 option sets the build either errors with a nil trie or yields a trie (fresh and loaded) that finds every key.",
              ref="3 C08"),
  "C11": dict(tech="Go race detector over a stress workload of 2..32 reader goroutines on one shared instance + solo-vs-concurrent result equality + iterator interleaving oracle; overlap matrix from unsynchronised monotonic timestamps; background churn of unrelated builds/loads in the same process",
              text="All read APIs are driven concurrently from a barrier against one shared fresh/loaded/legacy-loaded instance under -race with randomized yielding and GOMAXPROCS 1/2/16; zero race reports with slim/low/protobuf frames, every result equal to its solo result, independent iterators yield their own sequences; evidence carries the API-pair overlap matrix and in-flight histogram actually observed.",
              ref="3 C11", note=" The race detector sees only races whose two accesses both execute in the run."),
- "C12": dict(tech="runtime monitor: exact-map oracle through a key-verifying DataReader (dense Get / sparse RangeGet), incl. record sets with 9/10-bit short-node tables, >65535 nodes and over-limit keys",
+ "C12": dict(tech="runtime monitor: exact-map oracle through a key-verifying DataReader (dense Get / sparse RangeGet), incl. record sets with 9/10-bit short-node tables, >65535 nodes and over-limit keys; indexes loaded into receivers with a history (three load paths) and snapshot copies; watchdog: a lookup that does not return is a violation",
              text="SlimIndex.Get (one offset per key) and RangeGet (blocks of 1..64 keys sharing an offset) are compared with exact membership for every query of Q(K) through a reader that re-validates the key.",
              ref="3 C12"),
- "C15": dict(tech="runtime monitor: independent reference layouts compared on every value; exhaustive 8/16-bit (both tiers) and 32-bit (thorough), dense/boundary sampling otherwise; Encode results overwritten by the caller before re-encoding; concurrent replay on shared encoder objects",
+ "C15": dict(tech="runtime monitor: independent reference layouts compared on every value; exhaustive 8/16-bit (both tiers) and 32-bit (thorough), dense/boundary sampling otherwise; Encode results overwritten by the caller before re-encoding; values also encoded through pointers whose target is then overwritten; encoders configured through their exported fields; concurrent replay on shared encoder objects",
              text="Encode/Decode/GetSize/GetEncodedSize of every encoder are compared with reference layouts written from the statement, with and without trailing bytes; exhaustive for I8/I16/U16 always and for I32/U32 in the thorough tier (every 13th value with random phase in quick).",
              ref="3 C15"),
  "C16": dict(tech="runtime monitor: Go-map oracle across typed/raw/generic accessors and proto round trips, also into long-lived objects with a history; constructor error identity on invalid inputs",
@@ -61,7 +61,7 @@ CHECKS = {
  "C19": dict(tech="runtime monitor: rendering parser (node ids exactly once, leaf lines in key order) + fresh-vs-loaded equality, workloads steered to every short-table size; four goroutines rendering one trie at once",
              text="String() is called on tries steered to contain short-node tables of many sizes, 257-bit nodes and straddling short nodes; output is parsed line by line: ids 0..L-1 each once, leaf lines carry retained values in key order, loaded renders identically.",
              ref="3 C19"),
- "C20": dict(tech="runtime monitors: snapshot/scribble differential + mmap/mprotect guard-page sanitizer around caller-owned buffers",
+ "C20": dict(tech="runtime monitors: snapshot/scribble differential (keys, values - floats by bit pattern -, option structs/lists/pointees, byte and numeric value buffers, value blocks, input and output buffers) around accepted, rejected and over-long builds and around successful and refused loads + mmap/mprotect guard-page sanitizer around caller-owned buffers",
              text="Caller-owned keys, values and option struct (alone, and as a window of a larger preset table with spare capacity) are snapshotted around accepted and rejected builds; value buffers handed through by pass-through encoders are overwritten after the build; input and output buffers are overwritten (00/ff/noise) and answers re-compared; the stream and the key memory live in guard-paged mappings that are read-only during the call and inaccessible afterwards, so any store or retained alias faults recoverably.",
              ref="3 C20"),
 }
